@@ -218,6 +218,16 @@ def run_serve_trio(cfg: Dict[str, Any], programs: Dict[str, list],
     path = os.path.join(tmp, "s.sock")
     pin_scheduler(sched)
     watch = SpinWatch()
+    socks: List[Any] = []
+
+    def unblock() -> None:  # lets a server stuck in a write to a silent client fail and finish
+        for sk in socks:
+            try:
+                sk.close()
+            except OSError:
+                pass
+
+    watch.on_stuck = unblock
 
     class Env:
         backend = "trio"
@@ -280,6 +290,7 @@ def run_serve_trio(cfg: Dict[str, Any], programs: Dict[str, list],
                 return c
             c.connected_at = trio.current_time()
             self.log.add("connected", conn=c.cid)
+            socks.append(stream.socket)
             pending: List[bytes] = []
             wake = trio.Event()
             state = {"closing": False}
